@@ -191,6 +191,23 @@ func RandomSchema(r *hx.Rand) *SchemaDesc {
 	if r.Chance(1, 10) && len(objs) > 1 {
 		s.Subscription = hx.Pick(r, objs[1:])
 	}
+	if r.Chance(1, 6) {
+		// root types are also field types: some object types (the query type itself, a mutation payload, …)
+		// get a field of the query root type, possibly behind list / non-null wrappers (meta.go)
+		q := r.Fork()
+		n := 1 + q.Intn(2)
+		for i := 0; i < n; i++ {
+			t := s.Type(hx.Pick(q, objs))
+			if t == nil || t.Field("q") != nil {
+				continue
+			}
+			ft := wrap(q, "Query")
+			if q.Chance(1, 2) {
+				ft = Named("Query")
+			}
+			t.Fields = append(t.Fields, FieldDesc{Name: "q", Type: ft})
+		}
+	}
 	if r.Chance(1, 15) {
 		// long identifiers (classes.go)
 		longSchemaNames(r.Fork(), s)
